@@ -16,6 +16,7 @@ import (
 	"flag"
 	"fmt"
 	"io"
+	"os"
 	"runtime"
 	"sort"
 	"strings"
@@ -91,6 +92,7 @@ type gvOp struct {
 	Min    int    `json:"min,omitempty"`
 	Mode   string `json:"mode,omitempty"`   // pg_update: "strict" | "nonstrict" (annotation-only change)
 	Pol    string `json:"pol,omitempty"`    // pg_update: new match-policy annotation
+	Grp    string `json:"grp,omitempty"`    // pg_update / pg_create: gang-groups annotation "x" = also lists a gang that does not exist (yet), "plain" = the group's gangs only
 	Bound  bool   `json:"bound,omitempty"`  // pod_create: the pod already runs (fail-over)
 	Fit    bool   `json:"fit,omitempty"`    // sched: filter verdict
 	D      int    `json:"d,omitempty"`      // seconds (sleep / delay before a scheduling cycle)
@@ -115,6 +117,24 @@ func (c *gvCfg) groupAnnotation(g int) string {
 	for _, i := range c.groupOf(g) {
 		ids = append(ids, c.gangID(i))
 	}
+	sort.Strings(ids)
+	b, _ := json.Marshal(ids)
+	return string(b)
+}
+
+// phantomID names a gang that is listed in a gang-groups annotation but is never defined by any PodGroup or pod
+// ("the job is attached to a group together with a future gang").
+func (c *gvCfg) phantomID(g int) string { return fmt.Sprintf("%s/gx%d", gvNS, c.Gangs[g].Group) }
+
+func (c *gvCfg) groupAnnotationX(g int, phantom bool) string {
+	if !phantom {
+		return c.groupAnnotation(g)
+	}
+	var ids []string
+	for _, i := range c.groupOf(g) {
+		ids = append(ids, c.gangID(i))
+	}
+	ids = append(ids, c.phantomID(g))
 	sort.Strings(ids)
 	b, _ := json.Marshal(ids)
 	return string(b)
@@ -153,12 +173,14 @@ type gvPod struct {
 }
 
 type gvPG struct {
-	g      int
-	rv     int
-	min    int
-	strict bool
-	policy string // annotation value ("" = no annotation: plugin default)
-	obj    *v1alpha1.PodGroup
+	g       int
+	rv      int
+	gen     int // incarnation of the object under this name (a re-created PodGroup is a new object with a new UID)
+	min     int
+	strict  bool
+	policy  string // annotation value ("" = no annotation: plugin default)
+	phantom bool   // the gang-groups annotation also lists a gang that does not exist
+	obj     *v1alpha1.PodGroup
 }
 
 type gvStore struct {
@@ -168,10 +190,11 @@ type gvStore struct {
 	ever    map[string]bool   // names are never reused
 	perGang map[int]int       // pods ever created per gang
 	pgs     map[int]*gvPG
+	pgGen   map[int]int // PodGroup objects ever created per gang
 }
 
 func newGvStore(cfg *gvCfg) *gvStore {
-	return &gvStore{cfg: cfg, pods: map[string]*gvPod{}, ever: map[string]bool{}, perGang: map[int]int{}, pgs: map[int]*gvPG{}}
+	return &gvStore{cfg: cfg, pods: map[string]*gvPod{}, ever: map[string]bool{}, perGang: map[int]int{}, pgs: map[int]*gvPG{}, pgGen: map[int]int{}}
 }
 
 type gvEvent struct {
@@ -216,11 +239,11 @@ func (s *gvStore) podObj(p *gvPod) *corev1.Pod {
 func (s *gvStore) pgObj(p *gvPG) *v1alpha1.PodGroup {
 	gang := s.cfg.Gangs[p.g]
 	pg := &v1alpha1.PodGroup{
-		ObjectMeta: metav1.ObjectMeta{Name: gang.Name, Namespace: gvNS, UID: types.UID("pg-" + gang.Name), ResourceVersion: fmt.Sprint(p.rv),
+		ObjectMeta: metav1.ObjectMeta{Name: gang.Name, Namespace: gvNS, UID: types.UID(fmt.Sprintf("pg-%s-%d", gang.Name, p.gen)), ResourceVersion: fmt.Sprint(p.rv),
 			Annotations: map[string]string{
 				extension.AnnotationGangTotalNum: fmt.Sprint(gang.Total),
 				extension.AnnotationGangMode:     map[bool]string{true: extension.GangModeStrict, false: extension.GangModeNonStrict}[p.strict],
-				extension.AnnotationGangGroups:   s.cfg.groupAnnotation(p.g),
+				extension.AnnotationGangGroups:   s.cfg.groupAnnotationX(p.g, p.phantom),
 			}},
 		Spec: v1alpha1.PodGroupSpec{MinMember: int32(p.min)},
 	}
@@ -241,16 +264,42 @@ func (s *gvStore) apply(op *gvOp) (evs []gvEvent, ok bool) {
 			return nil, false
 		}
 		s.rv++
-		pg := &gvPG{g: op.G, rv: s.rv, min: s.cfg.Gangs[op.G].Min, strict: s.cfg.Gangs[op.G].Strict, policy: s.cfg.Gangs[op.G].Policy}
+		s.pgGen[op.G]++
+		pg := &gvPG{g: op.G, rv: s.rv, gen: s.pgGen[op.G], min: s.cfg.Gangs[op.G].Min, strict: s.cfg.Gangs[op.G].Strict, policy: s.cfg.Gangs[op.G].Policy,
+			phantom: op.Grp == "x" && len(s.cfg.groupOf(op.G)) == 1}
 		pg.obj = s.pgObj(pg)
 		s.pgs[op.G] = pg
 		return []gvEvent{{typ: "pg", kind: "add", name: s.cfg.Gangs[op.G].Name, g: op.G, new: pg.obj}}, true
+	case "pg_delete":
+		// the job is cleaned up: a PodGroup is deleted only after every member pod was deleted in the API (the delete
+		// events of those pods may still be under way)
+		old := s.pgs[op.G]
+		if old == nil {
+			return nil, false
+		}
+		for _, p := range s.pods {
+			if p.g == op.G {
+				return nil, false
+			}
+		}
+		delete(s.pgs, op.G)
+		return []gvEvent{{typ: "pg", kind: "delete", name: s.cfg.Gangs[op.G].Name, g: op.G, old: old.obj, tomb: op.Tomb}}, true
 	case "pg_update":
 		old := s.pgs[op.G]
 		if old == nil {
 			return nil, false
 		}
-		pg := &gvPG{g: op.G, min: old.min, strict: old.strict, policy: old.policy}
+		pg := &gvPG{g: op.G, gen: old.gen, min: old.min, strict: old.strict, policy: old.policy, phantom: old.phantom}
+		// the list is rewritten only in groups of one gang (attached to / detached from a second gang that does not exist
+		// yet), so that all existing gangs of a group carry the same list at all times
+		if len(s.cfg.groupOf(op.G)) == 1 {
+			switch op.Grp {
+			case "x":
+				pg.phantom = true
+			case "plain":
+				pg.phantom = false
+			}
+		}
 		if op.Min >= 1 {
 			pg.min = op.Min
 		}
@@ -263,7 +312,7 @@ func (s *gvStore) apply(op *gvOp) (evs []gvEvent, ok bool) {
 		if op.Pol != "" {
 			pg.policy = op.Pol
 		}
-		if pg.min == old.min && pg.strict == old.strict && pg.policy == old.policy {
+		if pg.min == old.min && pg.strict == old.strict && pg.policy == old.policy && pg.phantom == old.phantom {
 			return nil, false
 		}
 		s.rv++
@@ -327,6 +376,19 @@ func (s *gvStore) bind(name string) (ev *gvEvent, ok bool) {
 // ---------------------------------------------------------------- generation
 
 func (gangEngine) Generate(p *sim.Plan, g *sim.Rng) {
+	if path := os.Getenv("VERIF_GANG_DEV_PLAN"); path != "" {
+		// development aid: explore schedules / deliveries of ONE fixed history (cfg and ops of a replay file)
+		var rf struct {
+			Plan struct {
+				Cfg json.RawMessage   `json:"cfg"`
+				Ops []json.RawMessage `json:"ops"`
+			} `json:"plan"`
+		}
+		if b, err := os.ReadFile(path); err == nil && json.Unmarshal(b, &rf) == nil && len(rf.Plan.Ops) > 0 {
+			p.Cfg, p.Ops = rf.Plan.Cfg, rf.Plan.Ops
+			return
+		}
+	}
 	cfg := gvCfg{DefaultPolicy: g.Pick(extension.GangMatchPolicyOnceSatisfied, extension.GangMatchPolicyOnlyWaiting, extension.GangMatchPolicyWaitingAndRunning),
 		DefaultTimeoutS: g.PickInt(10, 30, 60), Readers: g.PickInt(0, 1, 1, 2)}
 	policies := []string{extension.GangMatchPolicyOnceSatisfied, extension.GangMatchPolicyOnlyWaiting, extension.GangMatchPolicyWaitingAndRunning, ""}
@@ -435,7 +497,129 @@ func (gangEngine) Generate(p *sim.Plan, g *sim.Rng) {
 	if p.Tier == "thorough" {
 		nOps = len(ops) + g.Range(10, 80)
 	}
+	// life-cycle runs (about one in three): at some point a whole gang group (or one gang of it) is torn down -- pods
+	// deleted, then the PodGroup -- and set up again under the same names: the new incarnation starts from nothing
+	recycles, recycleAt := 0, -1
+	if g.Bool(0.35) {
+		recycles = 1
+		if p.Tier == "thorough" && g.Bool(0.4) {
+			recycles = 2
+		}
+		recycleAt = len(ops) + g.Range(4, 24)
+	}
+	livePodsOf := func(gi int) []string {
+		var out []string
+		for n, sp := range st.pods {
+			if sp.g == gi {
+				out = append(out, n)
+			}
+		}
+		sort.Strings(out)
+		return out
+	}
+	toggleGroups := func(gi int) {
+		if pg := st.pgs[gi]; pg != nil {
+			if pg.phantom {
+				add(gvOp{K: "pg_update", G: gi, Grp: "plain"})
+			} else {
+				add(gvOp{K: "pg_update", G: gi, Grp: "x"})
+			}
+		}
+	}
+	recycle := func() {
+		gi := g.Intn(len(cfg.Gangs))
+		scope := []int{gi}
+		if g.Bool(0.75) {
+			scope = cfg.groupOf(gi)
+		}
+		if g.Bool(0.5) {
+			// let what is there get scheduled first, so that the old incarnation has usually been satisfied
+			for k := g.Range(2, 5); k > 0; k-- {
+				add(gvOp{K: "sched", Fit: true})
+			}
+			if g.Bool(0.5) {
+				ops = append(ops, gvOp{K: "barrier"})
+			}
+		}
+		if g.Bool(0.6) {
+			// the gang-groups annotation of a PodGroup of the group is rewritten while the gang exists
+			var pgs []int
+			for _, k := range cfg.groupOf(gi) {
+				if st.pgs[k] != nil {
+					pgs = append(pgs, k)
+				}
+			}
+			if len(pgs) > 0 {
+				toggleGroups(pgs[g.Intn(len(pgs))])
+				if g.Bool(0.3) {
+					add(gvOp{K: "sched", Fit: true})
+				}
+			}
+		}
+		lateBinder := g.Bool(0.25)
+		if lateBinder {
+			// a pod that is in the permit / binding stage goes first (its binding goroutine may come back much later)
+			add(gvOp{K: "pod_delete_inflight", Tomb: g.Bool(0.2)})
+		}
+		for _, i := range g.Perm(len(scope)) {
+			k := scope[i]
+			for _, n := range livePodsOf(k) {
+				add(gvOp{K: "pod_delete", P: n, Tomb: g.Bool(0.15)})
+			}
+			if st.pgs[k] != nil && g.Bool(0.92) {
+				add(gvOp{K: "pg_delete", G: k, Tomb: g.Bool(0.15)})
+			}
+			st.perGang[k] = 0
+		}
+		switch g.Intn(4) {
+		case 0, 1:
+			ops = append(ops, gvOp{K: "barrier"})
+		case 2:
+			add(gvOp{K: "sleep", D: g.PickInt(1, 2, 5)})
+		}
+		var again []gvOp
+		for _, k := range scope {
+			if cfg.Gangs[k].PG && st.pgs[k] == nil && g.Bool(0.92) {
+				op := gvOp{K: "pg_create", G: k}
+				if g.Bool(0.1) {
+					op.Grp = "x"
+				}
+				again = append(again, op)
+			}
+			n := g.Range(1, cfg.Gangs[k].Min)
+			if g.Bool(0.3) {
+				n = cfg.Gangs[k].Min
+			}
+			for ; n > 0; n-- {
+				again = append(again, gvOp{K: "pod_create", G: k})
+			}
+		}
+		for _, i := range g.Perm(len(again)) {
+			if op := again[i]; op.K == "pod_create" {
+				newPod(op.G, g.Bool(0.03))
+			} else {
+				add(op)
+			}
+			if serial {
+				ops = append(ops, gvOp{K: "barrier"})
+			}
+		}
+		for k := g.Range(1, len(again)+1); k > 0; k-- {
+			add(gvOp{K: "sched", Fit: true})
+		}
+		if lateBinder || g.Bool(0.2) {
+			add(gvOp{K: "sched", Fit: true, D: g.PickInt(1, 2, 5)})
+			add(gvOp{K: "sched", Fit: true})
+		}
+		nOps += g.Range(4, 12)
+	}
 	for len(ops) < nOps {
+		if recycles > 0 && len(ops) >= recycleAt {
+			recycle()
+			recycles--
+			recycleAt = len(ops) + g.Range(8, 24)
+			continue
+		}
 		x := g.Intn(100)
 		switch {
 		case x < 40:
@@ -483,11 +667,18 @@ func (gangEngine) Generate(p *sim.Plan, g *sim.Rng) {
 				if st.pgs[gi] == nil {
 					add(gvOp{K: "pg_create", G: gi})
 				} else {
-					switch g.Intn(4) {
+					switch g.Intn(6) {
 					case 0: // annotation-only updates: spec unchanged
 						add(gvOp{K: "pg_update", G: gi, Mode: g.Pick("strict", "nonstrict")})
 					case 1:
 						add(gvOp{K: "pg_update", G: gi, Pol: g.Pick(extension.GangMatchPolicyOnceSatisfied, extension.GangMatchPolicyOnlyWaiting, extension.GangMatchPolicyWaitingAndRunning)})
+					case 2:
+						toggleGroups(gi)
+					case 3:
+						// applicable only when every member pod is gone
+						if add(gvOp{K: "pg_delete", G: gi, Tomb: g.Bool(0.2)}) {
+							st.perGang[gi] = 0
+						}
 					default:
 						add(gvOp{K: "pg_update", G: gi, Min: g.Range(1, 4)})
 					}
@@ -517,9 +708,11 @@ type gvMPod struct {
 	name string
 	g    int
 	// informer progress (gang listener)
+	gangAddStart uint64
 	gangAddDone  uint64
 	gangDelStart uint64
 	gangDelDone  uint64
+	gangDropped  uint64 // the delete of the pod's PodGroup was handled while the gang cache still knew the pod (deleted in the API, its events under way)
 	// resource holding, as seen from outside the plugin
 	waits     []gvIv // assumed/reserved and neither unreserved nor post-bound
 	bound     gvIv   // bound in the API (start = bind call applied / created bound) until the delete was delivered to the gang cache
@@ -547,6 +740,9 @@ type gvVer struct {
 	min                  int
 	strict               bool
 	policy               string // effective match policy
+	phantom              bool   // the gang-groups annotation lists a gang that does not exist
+	deleted              bool   // the PodGroup was deleted: the gang is undefined from here on (until a new PodGroup of that name)
+	created              bool   // the version a PodGroup object was created with (delivered as an add event)
 	storeSeq             uint64
 	delivStart, delivEnd uint64
 }
@@ -611,10 +807,13 @@ type gvSim struct {
 	activity      int                // bumped when something starts that an observer may want to look into
 
 	// model
-	mp        map[string]*gvMPod
-	satisfied map[int]uint64 // group -> seq of the first bound member
-	minHist   map[int][]*gvVer
-	pgAddDone map[int]uint64
+	mp      map[string]*gvMPod
+	minHist map[int][]*gvVer
+	vanish  map[int][]uint64 // group -> instants at which nothing of the group was left (no PodGroup, no pod): what comes later is a new incarnation
+
+	gangHandling     *gvMPod // the pod whose event the gang listener is handling right now
+	gangHandlingKind string
+	gangCreating     bool // ... and that event may (re-)create the Gang object of an annotation-defined gang (no other pod of it is known)
 
 	schedQ    []gvOp
 	apiDone   bool
@@ -813,11 +1012,15 @@ func (s *gvSim) wpRemove(w *gvWP) {
 func (s *gvSim) emit(evs []gvEvent) {
 	for _, ev := range evs {
 		if ev.typ == "pg" {
-			npg := ev.new.(*v1alpha1.PodGroup)
-			v := &gvVer{min: int(npg.Spec.MinMember), strict: npg.Annotations[extension.AnnotationGangMode] == extension.GangModeStrict,
-				policy: npg.Annotations[extension.AnnotationGangMatchPolicy], storeSeq: s.r.Seq()}
-			if v.policy == "" {
-				v.policy = s.cfg.DefaultPolicy
+			v := &gvVer{deleted: true, storeSeq: s.r.Seq()}
+			if ev.kind != "delete" {
+				npg := ev.new.(*v1alpha1.PodGroup)
+				v = &gvVer{min: int(npg.Spec.MinMember), strict: npg.Annotations[extension.AnnotationGangMode] == extension.GangModeStrict,
+					policy: npg.Annotations[extension.AnnotationGangMatchPolicy], storeSeq: v.storeSeq, created: ev.kind == "add",
+					phantom: strings.Contains(npg.Annotations[extension.AnnotationGangGroups], `"`+s.cfg.phantomID(ev.g)+`"`)}
+				if v.policy == "" {
+					v.policy = s.cfg.DefaultPolicy
+				}
 			}
 			s.minHist[ev.g] = append(s.minHist[ev.g], v)
 			ev.ver = len(s.minHist[ev.g]) - 1
@@ -861,20 +1064,35 @@ func (s *gvSim) deliverGang(ev gvEvent) {
 	if carriesNode {
 		m.nodeDeliv = append(m.nodeDeliv, gvIv{start: r.Seq()})
 	}
+	s.gangHandling, s.gangHandlingKind = m, ev.kind
+	s.gangCreating = ev.kind != "delete" && !s.cfg.Gangs[m.g].PG && !s.podsInView(m.g, m)
+	if s.gangCreating {
+		s.tagPermitOverlapsGangInit(m.g) // evaluated on both sides of the handler
+	}
 	switch ev.kind {
 	case "add":
+		m.gangAddStart = r.Seq()
+		s.tagPodEventDuringPodGroupDelete(m.g) // evaluated on both sides of the handler
 		s.mgr.VerifOnPodAdd(ev.new)
+		s.tagPodEventDuringPodGroupDelete(m.g)
 		m.gangAddDone = r.Seq()
 	case "update":
 		if m.permitted {
 			r.Probe("pod-update-while-waiting")
 		}
+		s.tagPodEventDuringPodGroupDelete(m.g)
 		s.mgr.VerifOnPodUpdate(ev.old, ev.new)
+		s.tagPodEventDuringPodGroupDelete(m.g)
 	case "delete":
 		m.gangDelStart = r.Seq()
 		if m.permitted {
 			r.Probe("pod-delete-while-waiting")
 		}
+		lastOfGang := !s.cfg.Gangs[m.g].PG && !s.podsInView(m.g, m)
+		if lastOfGang {
+			s.tagBesideUninitialised(m.g) // evaluated on both sides of the handler: the other listener may be at work
+		}
+		s.tagPodDeleteDuringPodGroupAdd(m.g)
 		if ev.tomb {
 			r.Probe("tombstone-delivered")
 			s.mgr.VerifOnPodDelete(cache.DeletedFinalStateUnknown{Key: gvNS + "/" + ev.name, Obj: ev.old})
@@ -885,7 +1103,16 @@ func (s *gvSim) deliverGang(ev gvEvent) {
 		if m.bound.start != 0 && m.bound.end == 0 {
 			m.bound.end = m.gangDelDone
 		}
+		if lastOfGang {
+			s.tagBesideUninitialised(m.g)
+		}
+		s.tagPodDeleteDuringPodGroupAdd(m.g)
+		s.noteVanish(s.cfg.Gangs[m.g].Group, m.gangDelDone)
 	}
+	if s.gangCreating {
+		s.tagPermitOverlapsGangInit(m.g)
+	}
+	s.gangHandling, s.gangHandlingKind, s.gangCreating = nil, "", false
 	if carriesNode {
 		m.nodeDeliv[len(m.nodeDeliv)-1].end = r.Seq()
 		if m.boundSeen == 0 {
@@ -948,9 +1175,38 @@ func (s *gvSim) deliverPG(ev gvEvent) {
 	v.delivStart = r.Seq()
 	switch ev.kind {
 	case "add":
+		if ev.ver > 0 {
+			r.Probe("podgroup-recreated-under-same-name")
+		}
+		s.tagPodGroupAdd(ev.g, v) // history classes of recorded findings, evaluated on both sides of the handler
+		s.tagPermitOverlapsGangInit(ev.g)
 		s.mgr.VerifOnPodGroupAdd(ev.new)
-		s.pgAddDone[ev.g] = r.Seq()
+		s.tagPodGroupAdd(ev.g, v)
+		s.tagPermitOverlapsGangInit(ev.g)
+	case "delete":
+		for _, m := range s.podsOfGang(ev.g) {
+			if m.gangAddStart != 0 && m.gangDelDone == 0 {
+				// deleted in the API (a PodGroup is deleted after its pods), the gang listener has not handled that yet
+				m.gangDropped = v.delivStart
+				r.Probe("podgroup-delete-handled-before-pod-delete")
+			}
+		}
+		s.tagBesideUninitialised(ev.g) // evaluated on both sides of the handler: the pod listener may be at work
+		if ev.tomb {
+			r.Probe("podgroup-tombstone-delivered")
+			s.mgr.VerifOnPodGroupDelete(cache.DeletedFinalStateUnknown{Key: gvNS + "/" + ev.name, Obj: ev.old})
+		} else {
+			s.mgr.VerifOnPodGroupDelete(ev.old)
+		}
+		s.tagBesideUninitialised(ev.g)
+		v.delivEnd = r.Seq()
+		r.Probe("podgroup-deleted")
+		s.noteVanish(s.cfg.Gangs[ev.g].Group, v.delivEnd)
+		return
 	case "update":
+		if v.phantom != s.minHist[ev.g][ev.ver-1].phantom {
+			r.Probe("podgroup-gang-groups-annotation-changed")
+		}
 		for _, w := range s.h.sortedWaiting() {
 			if s.cfg.Gangs[w.g].Group == s.cfg.Gangs[ev.g].Group && w.signal == "" {
 				r.Probe("pg-min-changed-while-waiting")
@@ -1092,6 +1348,224 @@ func (s *gvSim) admissible(g int, t0, now uint64) []*gvVer {
 	return out
 }
 
+// pgInView / podsInView: what the two listeners have handled (or are handling) so far says the gang cache holds of gang k.
+func (s *gvSim) pgInView(k int) bool {
+	var last *gvVer
+	for _, v := range s.minHist[k] {
+		if v.delivStart != 0 {
+			last = v
+		}
+	}
+	return last != nil && !(last.deleted && last.delivEnd != 0)
+}
+
+func (s *gvSim) podsInView(k int, except *gvMPod) bool {
+	for _, m := range s.podsOfGang(k) {
+		if m != except && m.gangAddStart != 0 && m.gangDelDone == 0 {
+			return true
+		}
+	}
+	return false
+}
+
+// besideUninitialisedGang is evaluated while gang k is being removed from the gang cache (its PodGroup's delete event, or
+// the delete event of the last pod of an annotation-defined gang, is handled): apart from k, no gang of the group is
+// defined any more in what the listeners have handled, but at least one PodGroup-defined gang of the group is known
+// through its pods only (its PodGroup has not been seen, or is already gone). History class of a recorded finding.
+func (s *gvSim) besideUninitialisedGang(k int) bool {
+	found := false
+	for _, j := range s.cfg.groupOf(k) {
+		if j == k {
+			continue
+		}
+		known := s.podsInView(j, nil)
+		if s.cfg.Gangs[j].PG {
+			if s.pgInView(j) {
+				return false
+			}
+			if known {
+				found = true
+			}
+		} else if known {
+			return false
+		}
+	}
+	return found
+}
+
+func (s *gvSim) tagBesideUninitialised(k int) {
+	if s.besideUninitialisedGang(k) && !gvNoTag("last-gang-removed-beside-uninitialised-gang") {
+		s.r.Tag("last-gang-removed-beside-uninitialised-gang")
+	}
+	// same defect, the placeholder carries the name of the gang that is going away: the gang listener is in the middle of
+	// an add / update event of a pod of gang k while the pod-group listener handles the delete of k's PodGroup (the pod
+	// event re-creates an uninitialised Gang object of that name between the removal and the look at the group)
+	if h := s.gangHandling; s.cfg.Gangs[k].PG && h != nil && h.g == k && s.gangHandlingKind != "delete" && !gvNoTag("podgroup-delete-overlaps-pod-event") {
+		s.r.Tag("podgroup-delete-overlaps-pod-event")
+	}
+}
+
+// tagPodEventDuringPodGroupDelete is the gang listener's side of the same overlap.
+func (s *gvSim) tagPodEventDuringPodGroupDelete(g int) {
+	for _, v := range s.minHist[g] {
+		if v.deleted && v.delivStart != 0 && v.delivEnd == 0 && !gvNoTag("podgroup-delete-overlaps-pod-event") {
+			s.r.Tag("podgroup-delete-overlaps-pod-event")
+		}
+	}
+}
+
+// tagPodDeleteDuringPodGroupAdd (called by the gang listener around the handling of a pod delete): the pod-group listener
+// is in the middle of handling the add event of that pod's PodGroup. History class of a recorded finding.
+func (s *gvSim) tagPodDeleteDuringPodGroupAdd(g int) {
+	for _, v := range s.minHist[g] {
+		if v.created && v.delivStart != 0 && v.delivEnd == 0 && !gvNoTag("podgroup-add-overlaps-pod-delete") {
+			s.r.Tag("podgroup-add-overlaps-pod-delete")
+		}
+	}
+}
+
+// tagPodGroupAdd (called by the pod-group listener around the handling of a PodGroup add).
+func (s *gvSim) tagPodGroupAdd(g int, v *gvVer) {
+	known, maybePending := 0, false
+	for _, m := range s.podsOfGang(g) {
+		if m.gangDelStart != 0 && m.gangDelDone == 0 && !gvNoTag("podgroup-add-overlaps-pod-delete") {
+			// the gang listener is in the middle of handling the delete of a pod of this gang
+			s.r.Tag("podgroup-add-overlaps-pod-delete")
+		}
+		if m.gangAddStart == 0 || m.gangDelDone != 0 {
+			continue
+		}
+		known++
+		nodeUnderWay := len(m.nodeDeliv) > 0 && m.nodeDeliv[len(m.nodeDeliv)-1].end == 0
+		inPermit := m.permitted || (s.permit != nil && s.permit.pod == m.name)
+		if m.gangAddDone != 0 && m.gangDelStart == 0 && m.boundSeen == 0 && !nodeUnderWay && !inPermit {
+			maybePending = true // certainly a pending child
+		}
+	}
+	// the gang cache knows at least min members of the gang and none of them is pending (all of them run already, or
+	// wait in the permit stage): e.g. the PodGroup of a running job is seen after its pods (restart, fail-over). Matters
+	// in groups of several gangs only.
+	if len(s.cfg.groupOf(g)) > 1 && known >= v.min && !maybePending && !gvNoTag("podgroup-add-finds-no-pending-member") {
+		s.r.Tag("podgroup-add-finds-no-pending-member")
+	}
+}
+
+// tagPostBindAfterGroupGone (around PostBind): the pod's delete event has been handled and, since then, the incarnation
+// of its gang group has ended (nothing of the group was left): whatever gang of that name exists now is a new one.
+// History class of a recorded finding.
+func (s *gvSim) tagPostBindAfterGroupGone(m *gvMPod) {
+	if m.gangDelDone == 0 || gvNoTag("postbind-after-group-gone") {
+		return
+	}
+	for _, v := range s.vanish[s.cfg.Gangs[m.g].Group] {
+		if v >= m.gangDelDone {
+			s.r.Tag("postbind-after-group-gone")
+		}
+	}
+}
+
+// tagPermitOverlapsGangInit: a Permit call of a pod of gang g is in progress while the event that creates and initialises
+// the Gang object of g is being handled (the first pod add of an annotation-defined gang [incarnation], the add of the
+// PodGroup of a PodGroup-defined one). History class of a recorded finding; called from all three parties.
+func (s *gvSim) tagPermitOverlapsGangInit(g int) {
+	if s.permit == nil || s.permit.g != g {
+		return
+	}
+	initialising := s.gangCreating && s.gangHandling != nil && s.gangHandling.g == g
+	for _, v := range s.minHist[g] {
+		if v.created && v.delivStart != 0 && v.delivEnd == 0 {
+			initialising = true
+		}
+	}
+	if initialising {
+		gvTag(s.r, "permit-overlaps-gang-initialisation")
+	}
+}
+
+// gvTag sets a history tag unless it is switched off for development (see gvNoTag).
+func gvTag(r *sim.Run, name string) {
+	if !gvNoTag(name) {
+		r.Tag(name)
+	}
+}
+
+// gvNoTag: development aid (VERIF_GANG_NOTAG=<tag>[,<tag>]): run without the history tag of a recorded finding, e.g. to
+// check a proposed repair of /repo with --patch.
+func gvNoTag(tag string) bool {
+	for _, t := range strings.Split(os.Getenv("VERIF_GANG_NOTAG"), ",") {
+		if t == tag {
+			return true
+		}
+	}
+	return false
+}
+
+// noteVanish is called when the gang listener or the pod-group listener has finished handling a delete event (at seq):
+// if, in what has been delivered so far, nothing of the group is left -- no PodGroup of a PodGroup-defined gang, no pod
+// of any of its gangs -- and no other delivery for the group is under way, the incarnation of the group ends here.
+// Gangs (and a group) of the same names that appear later are new: they have never been satisfied.
+func (s *gvSim) noteVanish(grp int, seq uint64) {
+	for k := range s.cfg.Gangs {
+		if s.cfg.Gangs[k].Group != grp {
+			continue
+		}
+		if s.cfg.Gangs[k].PG {
+			var last *gvVer
+			for _, v := range s.minHist[k] {
+				if v.delivStart != 0 {
+					last = v
+				}
+			}
+			if last != nil && !(last.deleted && last.delivEnd != 0) {
+				return
+			}
+		}
+		for _, m := range s.podsOfGang(k) {
+			if m.gangAddStart != 0 && m.gangDelDone == 0 {
+				return
+			}
+		}
+	}
+	s.vanish[grp] = append(s.vanish[grp], seq)
+	s.r.Event("group %d: nothing left of it in what the listeners have handled", grp)
+	s.r.Probe("group-incarnation-ended")
+}
+
+// incarnationBase: the end of the last incarnation of the group that was over before t0 (0: the first one is still on).
+func (s *gvSim) incarnationBase(grp int, t0 uint64) uint64 {
+	base := uint64(0)
+	for _, v := range s.vanish[grp] {
+		if v < t0 {
+			base = v
+		}
+	}
+	return base
+}
+
+// groupSatisfied: some incarnation of the group that overlaps [t0, now] has been satisfied -- a member of one of its
+// gangs was bound (bind call applied, or created bound) and the gang cache may have known that pod at some instant of
+// that incarnation (its delete event had not been handled when the previous incarnation ended). A pod that was bound and
+// deleted while an EARLIER incarnation was on says nothing about this one.
+func (s *gvSim) groupSatisfied(grp int, t0 uint64) bool {
+	base := s.incarnationBase(grp, t0)
+	for _, m := range s.mp {
+		if s.cfg.Gangs[m.g].Group == grp && m.bound.start != 0 && (m.bound.end == 0 || m.bound.end > base) {
+			return true
+		}
+	}
+	return false
+}
+
+// groupEverSatisfied: a member of some incarnation of the group was bound at some time.
+func (s *gvSim) groupEverSatisfied(grp int) bool {
+	for _, m := range s.mp {
+		if s.cfg.Gangs[m.g].Group == grp && m.bound.start != 0 {
+			return true
+		}
+	}
+	return false
+}
+
 // checkRelease is oracle 1: a pod leaves the permit stage (Allow on a waiting pod, or Permit == Success).
 func (s *gvSim) checkRelease(pod string, g int, kind string) {
 	r := s.r
@@ -1102,14 +1576,30 @@ func (s *gvSim) checkRelease(pod string, g int, kind string) {
 		t0 = s.permit.invoke
 	}
 	grp := s.cfg.Gangs[g].Group
+	satisfied := s.groupSatisfied(grp, t0)
+	if s.incarnationBase(grp, t0) != 0 {
+		r.Probe("release-checked-in-later-incarnation")
+		if !satisfied {
+			r.Probe("release-checked-in-later-incarnation-not-yet-satisfied")
+		}
+	}
+	inherited := ""
+	if !satisfied && s.groupEverSatisfied(grp) {
+		inherited = "/only-an-earlier-incarnation-was-satisfied"
+	}
+	onceEscape := false
 	for _, k := range s.cfg.groupOf(g) {
 		vers := s.admissible(k, t0, now)
 		justified := false
 		var why []string
 		for _, v := range vers {
-			if v.policy == extension.GangMatchPolicyOnceSatisfied && s.satisfied[grp] != 0 {
+			if v.deleted {
+				why = append(why, "{PodGroup deleted: undefined}")
+				continue
+			}
+			if v.policy == extension.GangMatchPolicyOnceSatisfied && satisfied {
 				r.Probe("release-after-once-satisfied")
-				justified = true
+				justified, onceEscape = true, true
 				break
 			}
 			cnt := 0
@@ -1137,12 +1627,26 @@ func (s *gvSim) checkRelease(pod string, g int, kind string) {
 		}
 		if !justified {
 			pol := "undefined"
-			if len(vers) > 0 {
+			if len(vers) > 0 && !vers[len(vers)-1].deleted {
 				pol = vers[len(vers)-1].policy
 			}
-			r.Fail("release-soundness", kind+"/"+pol, "pod %s released (%s) while gang %s of its group does not have its minimum of members holding resources under any admissible linearisation and gang definition: %v (group satisfied=%v)",
-				pod, kind, s.cfg.Gangs[k].Name, why, s.satisfied[grp] != 0)
+			r.Fail("release-soundness", kind+"/"+pol+inherited, "pod %s released (%s) while gang %s of its group does not have its minimum of members holding resources under any admissible linearisation and gang definition: %v (this incarnation of the group satisfied=%v, an earlier one=%v, incarnations ended at %v, window [%d,%d])",
+				pod, kind, s.cfg.Gangs[k].Name, why, satisfied, s.groupEverSatisfied(grp), s.vanish[grp], t0, now)
 		}
+	}
+	// a gang that the pod's gang lists in its group but that no PodGroup or pod defines has no members at all
+	if vers := s.admissible(g, t0, now); s.cfg.Gangs[g].PG && len(vers) > 0 && !onceEscape {
+		listed := true
+		for _, v := range vers {
+			if v.deleted || !v.phantom {
+				listed = false
+			}
+		}
+		if listed {
+			r.Fail("release-soundness", kind+"/listed-gang-undefined"+inherited, "pod %s released (%s) although its gang %s lists gang %s in its group under every admissible definition and that gang does not exist (this incarnation of the group satisfied=%v)",
+				pod, kind, s.cfg.Gangs[g].Name, s.cfg.phantomID(g), satisfied)
+		}
+		r.Probe("release-checked-listed-gang")
 	}
 	r.Probe("release-checked:" + kind)
 }
@@ -1154,10 +1658,31 @@ type gvStrictSnap struct {
 	t0   uint64
 }
 
+// pgDeletePending: a delete of the gang's PodGroup is in the pod-group stream and has not been handled completely.
+func (s *gvSim) pgDeletePending(g int) bool {
+	for _, v := range s.minHist[g] {
+		if v.deleted && v.delivEnd == 0 {
+			return true
+		}
+	}
+	return false
+}
+
 // gangKnownInit: the gang cache definitely holds an initialised Gang object for g during [t0, now].
 func (s *gvSim) gangKnownInit(g int, t0 uint64) bool {
 	if s.cfg.Gangs[g].PG {
-		return s.pgAddDone[g] != 0 && s.pgAddDone[g] < t0
+		known := false
+		for _, v := range s.minHist[g] { // in the order of the pod-group stream
+			switch {
+			case v.deleted:
+				if v.delivStart != 0 {
+					known = false
+				}
+			case v.delivEnd != 0 && v.delivEnd < t0:
+				known = true
+			}
+		}
+		return known
 	}
 	for _, m := range s.podsOfGang(g) {
 		if m.gangAddDone != 0 && m.gangAddDone < t0 && m.gangDelStart == 0 {
@@ -1192,10 +1717,14 @@ func (s *gvSim) strictAfter(snap *gvStrictSnap) {
 		return
 	}
 	for _, v := range vers {
+		if v.deleted {
+			r.Probe("strict-check-skipped:podgroup-deleted")
+			return // the gang cache may legitimately not know the gang
+		}
 		if !v.strict {
 			return // the gang cache may legitimately see the gang as non-strict
 		}
-		if v.policy == extension.GangMatchPolicyOnceSatisfied && s.satisfied[s.cfg.Gangs[snap.g].Group] != 0 {
+		if v.policy == extension.GangMatchPolicyOnceSatisfied && s.groupSatisfied(s.cfg.Gangs[snap.g].Group, snap.t0) {
 			r.Probe("strict-check-skipped:once-satisfied")
 			return
 		}
@@ -1309,7 +1838,7 @@ func (s *gvSim) scheduleOne(op gvOp) {
 		// history class of a recorded finding (known_findings.jsonl): an earlier bind of this pod was applied by the API
 		// server although the scheduler saw an error, the pod was rolled back and requeued from a stale informer cache,
 		// and it now passes assume again because the scheduler's own pod listener has not seen the binding yet
-		r.Tag("rescheduled-after-lost-bind-ack")
+		gvTag(r, "rescheduled-after-lost-bind-ack")
 	}
 	assumed := pod.DeepCopy()
 	assumed.Spec.NodeName = gvNode
@@ -1322,14 +1851,16 @@ func (s *gvSim) scheduleOne(op gvOp) {
 		// history class of a recorded finding (known_findings.jsonl): the pod is scheduled although the gang cache's pod
 		// listener has not handled its add event yet (PreEnqueue/BeforePreFilter let unknown pods of a once-satisfied
 		// group through), so Permit may record it in a Gang object that the cache is dropping or about to re-create
-		r.Tag("permit-before-gang-cache-saw-pod")
+		gvTag(r, "permit-before-gang-cache-saw-pod")
 	}
 	s.activity++
 	s.observe("before-permit")
 	s.permit = &gvPermitCtx{pod: name, g: m.g, invoke: r.Seq()}
 	m.openWait(s.permit.invoke)
 	m.permitInv, m.permitRet = s.permit.invoke, 0
+	s.tagPermitOverlapsGangInit(m.g) // evaluated on both sides of the call
 	pst, wait := s.cs.Permit(s.ctx(), state, assumed, gvNode)
+	s.tagPermitOverlapsGangInit(m.g)
 	m.permitRet = r.Seq()
 	r.Event("permit %s -> %v %v", name, pst.Code(), wait)
 	switch {
@@ -1452,9 +1983,6 @@ func (s *gvSim) spawnBinder(pod *corev1.Pod, state fwktype.CycleState, w *gvWP) 
 				if m.bound.start == 0 {
 					m.bound.start = r.Seq()
 				}
-				if grp := s.cfg.Gangs[m.g].Group; s.satisfied[grp] == 0 {
-					s.satisfied[grp] = r.Seq()
-				}
 				s.emit([]gvEvent{*ev})
 				r.Event("bound %s", name)
 			} else if s.st.pods[name] == nil {
@@ -1472,19 +2000,26 @@ func (s *gvSim) spawnBinder(pod *corev1.Pod, state fwktype.CycleState, w *gvWP) 
 			fail("unreserve-bindfail")
 			return
 		}
-		s.stall("binder:postbind")
+		if os.Getenv("VERIF_GANG_DEV_LATE_POSTBIND") != "" && r.Flip(0.5) {
+			// development aid: make binding goroutines that reach PostBind long after everything else common
+			r.Sleep(time.Millisecond)
+		} else {
+			s.stall("binder:postbind")
+		}
 		if s.st.pods[name] == nil {
 			r.Probe("postbind-after-delete")
 		}
 		if m.gangDelStart != 0 {
 			// history class of a recorded finding (known_findings.jsonl): the pod was deleted after its bind call
 			// succeeded and the gang cache handled the delete event before the binding goroutine reached PostBind
-			r.Tag("postbind-after-delete-event")
+			gvTag(r, "postbind-after-delete-event")
 		}
+		s.tagPostBindAfterGroupGone(m)
 		s.cs.PostBind(s.ctx(), state, pod, gvNode)
 		if m.gangDelStart != 0 {
-			r.Tag("postbind-after-delete-event") // the delete event was handled while PostBind was between its two locks
+			gvTag(r, "postbind-after-delete-event") // the delete event was handled while PostBind was between its two locks
 		}
+		s.tagPostBindAfterGroupGone(m)
 		m.closeWait(r.Seq())
 		m.permitted = false
 		r.Event("postbind %s", name)
@@ -1584,6 +2119,11 @@ func (s *gvSim) observe(tag string) {
 				}
 			case !child && (m.gangAddDone == 0 || m.gangAddDone >= t0):
 				// the cache has not (completely) handled the pod's add yet
+			case !child && m.gangDropped != 0:
+				// the Gang object the pod was a child of went away with its PodGroup; the pod itself is deleted in the API,
+				// only its own delete event has not been handled yet: whatever its scheduling / binding cycle still records
+				// goes into an object that does not list it
+				r.Probe("observed-in-flight-pod-of-deleted-podgroup")
 			case !child && sets[0] == "waiting":
 				if m.gangDelStart == 0 || (m.permitRet != 0 && m.permitRet < m.gangDelStart) {
 					bad = "waiting-not-child"
@@ -1695,7 +2235,7 @@ func (s *gvSim) checkQuiescent(tag string) {
 func (gangEngine) Execute(r *sim.Run) {
 	s := &gvSim{r: r, lister: map[string]*corev1.Pod{}, busy: map[string]bool{}, qState: map[string]string{}, qObj: map[string]*corev1.Pod{},
 		popped: map[string]bool{}, assumed: map[string]bool{}, cacheBound: map[string]bool{}, waiting: map[string]*gvWP{}, mp: map[string]*gvMPod{},
-		unres: map[uint64]*gvMPod{}, satisfied: map[int]uint64{}, minHist: map[int][]*gvVer{}, pgAddDone: map[int]uint64{}}
+		unres: map[uint64]*gvMPod{}, minHist: map[int][]*gvVer{}, vanish: map[int][]uint64{}}
 	r.Plan.GetCfg(&s.cfg)
 	var ops []gvOp
 	r.Plan.GetOps(&ops)
@@ -1798,21 +2338,25 @@ func (s *gvSim) runPhase(burst []gvOp, final bool) {
 				op.K, op.P = "pod_delete", cand[r.Choose(len(cand))]
 				r.Probe("delete-of-inflight-pod")
 			}
+			if op.K == "pod_create" && op.G >= 0 && op.G < len(s.cfg.Gangs) && s.pgDeletePending(op.G) {
+				// pods of the next incarnation are created after the scheduler has seen the old PodGroup go (a live pod that is
+				// added to a Gang object which is about to be dropped with its PodGroup is outside what C04 quantifies over)
+				r.Probe("pod-create-waits-until-podgroup-delete-handled")
+				g := op.G
+				r.WaitUntil("api:pg-delete-seen", func() bool { return !s.pgDeletePending(g) })
+			}
 			evs, ok := s.st.apply(&op)
 			if !ok {
 				r.OpSkipped()
 				continue
 			}
 			r.OpDone()
-			r.Sample("%s g=%d p=%s min=%d mode=%s pol=%s bound=%v", op.K, op.G, op.P, op.Min, op.Mode, op.Pol, op.Bound)
-			r.Event("api %s g=%d p=%s min=%d mode=%s pol=%s", op.K, op.G, op.P, op.Min, op.Mode, op.Pol)
+			r.Sample("%s g=%d p=%s min=%d mode=%s pol=%s grp=%s bound=%v", op.K, op.G, op.P, op.Min, op.Mode, op.Pol, op.Grp, op.Bound)
+			r.Event("api %s g=%d p=%s min=%d mode=%s pol=%s grp=%s", op.K, op.G, op.P, op.Min, op.Mode, op.Pol, op.Grp)
 			if op.K == "pod_create" {
 				m := &gvMPod{name: op.P, g: op.G}
 				if op.Bound {
 					m.bound.start = r.Seq()
-					if grp := s.cfg.Gangs[op.G].Group; s.satisfied[grp] == 0 {
-						s.satisfied[grp] = m.bound.start
-					}
 				}
 				s.mp[op.P] = m
 			}
